@@ -147,6 +147,7 @@ func config(sc vlib.Scenario, tier string) vsched.Config {
 }
 
 type world struct {
+	liveAtClose *sim.BConn
 	cutAfter message.Message
 	kit.World
 	p        params
@@ -416,6 +417,7 @@ func (w *world) main() {
 		w.works[d.Name] = fmt.Sprintf("sent=%v read=%s ok=%v", sent, kit.ErrKind(err), ok)
 	}
 	w.discAt, w.reconnAt = len(w.Disc), len(w.Reconn)
+	w.liveAtClose = w.B.Live() // the broker's view before the harness closes everything
 	w.Phase = "close"
 	for _, u := range w.Ups {
 		cctx, ccancel := kit.Ctx(15 * time.Second)
@@ -520,7 +522,10 @@ func run(sc vlib.Scenario, cfg vsched.Config) (*vsched.Result, vlib.Verdict) {
 		v.Outcome = "no-failure"
 		return res, v
 	}
-	live := w.B.Live()
+	live := w.liveAtClose
+	if live == nil && w.Phase != "close" && w.Phase != "done" {
+		live = w.B.Live() // the execution did not get as far as the closing phase
+	}
 	if live == nil || live.Connect == nil {
 		v.Inconclusive = "no-live-connection-at-end"
 		return res, v
